@@ -1,5 +1,5 @@
 (** C02 — proofs about the oracle model (Skyway/Oracle.v), for all histories. *)
-From Coq Require Import List ZArith Bool Lia.
+From Coq Require Import List ZArith Bool Lia Sorted.
 From Paloma Require Import Base.Num Skyway.Oracle.
 From Paloma Require Gen.C02.
 Import ListNotations.
@@ -12,6 +12,7 @@ Lemma src_height_first : Gen.C02.height_before_cursor = true. Proof. reflexivity
 Lemma src_strict : Gen.C02.threshold_strict = true. Proof. reflexivity. Qed.
 Lemma src_num : Gen.C02.threshold_num = 66. Proof. reflexivity. Qed.
 Lemma src_den : Gen.C02.threshold_den = 100. Proof. reflexivity. Qed.
+Lemma src_keep : Gen.C02.events_to_keep = 1000. Proof. reflexivity. Qed.
 
 (** * Lists, maps *)
 Lemma mem_In v l : mem v l = true <-> In v l.
@@ -145,6 +146,139 @@ Qed.
 Lemma u64_range x : 0 <= u64 x < two64.
 Proof. unfold u64. apply Z.mod_pos_bound. unfold two64; lia. Qed.
 
+
+Lemma zget_zset l k x k' : zget (zset l k x) k' = if k' =? k then Some x else zget l k'.
+Proof.
+  induction l as [|[k0 x0] r IH]; simpl.
+  - destruct (k' =? k); reflexivity.
+  - destruct (k =? k0) eqn:E0; [|destruct (k <? k0) eqn:E1]; simpl.
+    + apply Z.eqb_eq in E0; subst. destruct (k' =? k0); reflexivity.
+    + destruct (k' =? k) eqn:E2; reflexivity.
+    + destruct (k' =? k0) eqn:E2.
+      * apply Z.eqb_eq in E2; subst. rewrite Z.eqb_sym, E0. reflexivity.
+      * exact IH.
+Qed.
+
+(** ** the attestation store is sorted by (nonce, hash), as the KV store iterates it *)
+Definition klt (x y : Z * Z * att) : Prop :=
+  keyltb (fst (fst x)) (snd (fst x)) (fst (fst y)) (snd (fst y)) = true.
+
+Lemma keyltb_true n h n' h' : keyltb n h n' h' = true <-> n < n' \/ (n = n' /\ h < h').
+Proof. unfold keyltb. rewrite orb_true_iff, andb_true_iff, !Z.ltb_lt, Z.eqb_eq. tauto. Qed.
+
+Lemma klt_spec x y : klt x y <-> fst (fst x) < fst (fst y) \/ (fst (fst x) = fst (fst y) /\ snd (fst x) < snd (fst y)).
+Proof. unfold klt. apply keyltb_true. Qed.
+
+Lemma klt_trans x y z : klt x y -> klt y z -> klt x z.
+Proof. rewrite !klt_spec. lia. Qed.
+
+Lemma filter_sorted {A} (R : A -> A -> Prop) f l : StronglySorted R l -> StronglySorted R (filter f l).
+Proof.
+  induction 1 as [|a l S IH F]; simpl; [constructor|].
+  destruct (f a); [|exact IH]. constructor; [exact IH|].
+  rewrite Forall_forall in *. intros x Hx. apply filter_In in Hx as [Hx _]. auto.
+Qed.
+
+Lemma set_att_sorted l n h a : StronglySorted klt l -> StronglySorted klt (set_att l n h a).
+Proof.
+  induction 1 as [|[[n' h'] a'] l S IH F]; simpl; [repeat constructor|].
+  destruct (keyeqb n h n' h') eqn:E; [|destruct (keyltb n h n' h') eqn:L].
+  - apply keyeqb_true in E as [-> ->]. constructor; [exact S|].
+    rewrite Forall_forall in *. intros x Hx. specialize (F x Hx). rewrite klt_spec in *. simpl in *. exact F.
+  - constructor; [constructor; assumption|]. constructor.
+    + unfold klt. simpl. exact L.
+    + rewrite Forall_forall in *. intros x Hx. apply (klt_trans _ (n', h', a')); [unfold klt; simpl; exact L | auto].
+  - constructor; [exact IH|]. rewrite Forall_forall in *. intros x Hx.
+    apply set_att_In in Hx as [->|Hx]; [|auto].
+    rewrite klt_spec. simpl.
+    assert (E' : ~ (n = n' /\ h = h')) by (rewrite <- keyeqb_true; congruence).
+    assert (L' : ~ (n < n' \/ (n = n' /\ h < h'))) by (rewrite <- keyltb_true; congruence).
+    lia.
+Qed.
+
+Lemma sorted_unique l n h a a' : StronglySorted klt l -> In (n, h, a) l -> In (n, h, a') l -> a = a'.
+Proof.
+  induction 1 as [|x l S IH F]; simpl; [tauto|].
+  rewrite Forall_forall in F.
+  intros [H1|H1] [H2|H2].
+  - congruence.
+  - subst x. specialize (F _ H2). rewrite klt_spec in F. simpl in F. lia.
+  - subst x. specialize (F _ H1). rewrite klt_spec in F. simpl in F. lia.
+  - auto.
+Qed.
+
+Lemma set_att_keeps l n h a n0 h0 a0 :
+  In (n0, h0, a0) l -> (n0 = n /\ h0 = h) \/ In (n0, h0, a0) (set_att l n h a).
+Proof.
+  induction l as [|[[n' h'] a'] r IH]; simpl; [tauto|].
+  intros [H|H].
+  - inversion H; subst. destruct (keyeqb n h n0 h0) eqn:E.
+    + apply keyeqb_true in E as [-> ->]. now left.
+    + right. destruct (keyltb n h n0 h0); simpl; auto.
+  - destruct (IH H) as [K|K]; [now left|]. right.
+    destruct (keyeqb n h n' h') eqn:E.
+    + (* the head is replaced; (n0,h0,a0) is in the tail *) simpl. now right.
+    + destruct (keyltb n h n' h'); simpl; auto.
+Qed.
+
+(** ** pending batches *)
+Lemma bkeyb_true tok bn b : bkeyb tok bn b = true <-> fst (fst b) = tok /\ snd (fst b) = bn.
+Proof. unfold bkeyb. rewrite andb_true_iff, !Z.eqb_eq. tauto. Qed.
+
+Lemma bget_Some l tok bn t : bget l tok bn = Some t -> In (tok, bn, t) l.
+Proof.
+  induction l as [|[[t0 b0] x0] r IH]; simpl; [discriminate|].
+  destruct (bkeyb tok bn (t0, b0, x0)) eqn:E.
+  - apply bkeyb_true in E as [E1 E2]. simpl in *. subst. intros H; inversion H; subst. now left.
+  - intros H. right. auto.
+Qed.
+
+Lemma bget_None l tok bn : bget l tok bn = None <-> forall b, In b l -> bkeyb tok bn b = false.
+Proof.
+  induction l as [|b0 r IH]; simpl; [split; [tauto | reflexivity]|].
+  destruct (bkeyb tok bn b0) eqn:E.
+  - split; [discriminate|]. intros H. specialize (H b0 (or_introl eq_refl)). congruence.
+  - rewrite IH. split; [intros H b [->|Hb]; auto | intros H b Hb; auto].
+Qed.
+
+Lemma bget_bdel_same l tok bn : bget (bdel l tok bn) tok bn = None.
+Proof.
+  apply bget_None. intros b Hb. unfold bdel in Hb. apply filter_In in Hb as [_ Hb].
+  now apply negb_true_iff in Hb.
+Qed.
+
+Lemma bget_bdel_None l tok bn tok' bn' : bget l tok' bn' = None -> bget (bdel l tok bn) tok' bn' = None.
+Proof.
+  rewrite !bget_None. intros H b Hb. unfold bdel in Hb. apply filter_In in Hb as [Hb _]. auto.
+Qed.
+
+Lemma bget_app_None l b tok bn : bget l tok bn = None -> bkeyb tok bn b = false -> bget (l ++ [b]) tok bn = None.
+Proof.
+  rewrite !bget_None. intros H Hb x Hx. apply in_app_iff in Hx as [Hx|[<-|[]]]; auto.
+Qed.
+
+(** ** what [fire] writes, whatever the handler does *)
+Lemma fire_proj s a : let c := a_claim a in
+  atts (fire s a) = set_att (atts s) (c_nonce c) (c_h c) (mkAtt (a_votes a) true c) /\
+  last_obs (fire s a) = c_nonce c /\ last_height (fire s a) = c_height c /\
+  vnonce (fire s a) = vnonce s /\ compass (fire s a) = compass s /\ pw (fire s a) = pw s /\
+  total (fire s a) = total s /\ bonded (fire s a) = bonded s /\ epoch (fire s a) = epoch s /\
+  epoch_cursor (fire s a) = epoch_cursor s /\ last_batch (fire s a) = last_batch s /\
+  applied (fire s a) = applied s ++ [mkEntry (epoch s) c (applicable s c)].
+Proof.
+  unfold fire, effect. destruct (applicable s (a_claim a));
+    [destruct (c_kind (a_claim a) =? 0); [|destruct (c_kind (a_claim a) =? 1)]|]; simpl; repeat split.
+Qed.
+
+Lemma fire_bal s a r : let c := a_claim a in
+  zget0 (bal (fire s a)) r = zget0 (bal s) r + (if applicable s c && (c_kind c =? 0) && (c_rcv c =? r) then c_amt c else 0).
+Proof.
+  unfold fire, effect. destruct (applicable s (a_claim a)); simpl; [|lia].
+  destruct (c_kind (a_claim a) =? 0); simpl; [|destruct (c_kind (a_claim a) =? 1); simpl; lia].
+  unfold badd. rewrite zget0_zset, (Z.eqb_sym r). destruct (c_rcv (a_claim a) =? r) eqn:E; [|lia].
+  apply Z.eqb_eq in E. subst r. lia.
+Qed.
+
 (** * The tally fires only on a prefix of distinct... of the vote list whose power exceeds the requirement *)
 Lemma fire_prefix_spec p req votes : forall acc vs,
   fire_prefix p req acc votes = Some vs ->
@@ -201,7 +335,7 @@ Proof.
   - rewrite E. apply IH; [exact Hr|]. apply (Hstep s n h a vs); [left; reflexivity | exact HQ | exact Hf].
 Qed.
 
-(** * State invariant *)
+(** * State invariant (oracle core) *)
 Definition key2 (e : entry) : Z * Z := (e_epoch e, e_nonce e).
 Definition key3 (e : entry) : Z * Z * Z := (e_epoch e, e_nonce e, c_h (e_claim e)).
 
@@ -209,6 +343,7 @@ Record Inv (s : state) : Prop := {
   inv_nodup : forall n h a, In (n, h, a) (atts s) -> NoDup (a_votes a);
   inv_key : forall n h a, In (n, h, a) (atts s) -> c_nonce (a_claim a) = n /\ c_h (a_claim a) = h;
   inv_valid : forall n h a, In (n, h, a) (atts s) -> 1 <= n < two64;
+  inv_sorted : StronglySorted klt (atts s);
   inv_last : 0 <= last_obs s < two64;
   inv_epoch : forall e, In e (applied s) -> e_epoch e <= epoch s;
   inv_seq : forall ep, exists c k, nonces_of_epoch ep (applied s) = zseq (c + 1) k /\
@@ -220,6 +355,7 @@ Record Inv (s : state) : Prop := {
 Lemma Inv_init : Inv init.
 Proof.
   constructor; simpl; try tauto.
+  - constructor.
   - unfold two64; lia.
   - intros ep. exists 0, O. simpl. split; [reflexivity|]. intros _. split; reflexivity.
   - constructor.
@@ -238,7 +374,8 @@ Proof.
 Qed.
 
 Lemma minted_snoc r l e :
-  minted r (l ++ [e]) = minted r l + (if e_ok e && (c_rcv (e_claim e) =? r) then c_amt (e_claim e) else 0).
+  minted r (l ++ [e]) = minted r l +
+    (if e_ok e && (c_kind (e_claim e) =? 0) && (c_rcv (e_claim e) =? r) then c_amt (e_claim e) else 0).
 Proof. unfold minted. rewrite map_app, zsum_app. simpl. lia. Qed.
 
 (** Firing an attestation of the store keeps the invariant. *)
@@ -250,10 +387,12 @@ Proof.
   assert (Hnext : c_nonce (a_claim a) = last_obs s + 1).
   { rewrite Hn. apply u64_succ; [apply I|]. rewrite <- Hn. lia. }
   destruct (inv_seq s I (epoch s)) as (c & k & Hseq & Hcur). destruct (Hcur eq_refl) as [Hc Hl].
-  constructor; unfold fire; simpl.
+  destruct (fire_proj s a) as (Fa & Fl & Fh & Fv & Fc & Fp & Ft & Fb & Fe & Fec & Flb & Fap).
+  constructor; rewrite ?Fa, ?Fl, ?Fe, ?Fec, ?Fap.
   - intros n0 h0 a0 H. apply set_att_In in H as [H|H]; [inversion H; subst; exact ND | eapply inv_nodup; eauto].
   - intros n0 h0 a0 H. apply set_att_In in H as [H|H]; [inversion H; subst; simpl; auto | eapply inv_key; eauto].
   - intros n0 h0 a0 H. apply set_att_In in H as [H|H]; [inversion H; subst; lia | eapply inv_valid; eauto].
+  - apply set_att_sorted. apply I.
   - lia.
   - intros e H. apply in_app_iff in H as [H|[H|[]]]; [now apply I | subst; simpl; lia].
   - intros ep. rewrite nonces_of_epoch_snoc. simpl.
@@ -267,10 +406,7 @@ Proof.
     intros H. apply in_map_iff in H as [e [Ek He]]. unfold key2 in Ek. simpl in Ek.
     inversion Ek as [[Ee En]]. pose proof (In_nonces_of_epoch e _ He) as Hin.
     rewrite Ee, Hseq in Hin. apply In_zseq in Hin. unfold e_nonce in En at 2. simpl in En. lia.
-  - intros r. rewrite minted_snoc. simpl. rewrite <- (inv_bal s I r).
-    destruct (c_tok (a_claim a)); simpl; [|lia].
-    unfold badd. rewrite zget0_zset. rewrite (Z.eqb_sym r). destruct (c_rcv (a_claim a) =? r) eqn:E; [|lia].
-    apply Z.eqb_eq in E. subst r. lia.
+  - intros r. rewrite minted_snoc, fire_bal. simpl. rewrite <- (inv_bal s I r). reflexivity.
 Qed.
 
 Lemma Inv_tally s : Inv s -> Inv (fst (tally s)).
@@ -281,11 +417,17 @@ Proof.
   apply (Inv_fire s1 a vs n h I1); [exact (inv_nodup s I _ _ _ Hin) | exact Kn | exact Kh | exact (inv_valid s I _ _ _ Hin) | exact Hf].
 Qed.
 
+Lemma vote_ok_parts s v known c : vote_ok s v known c = true ->
+  known = true /\ mem v (bonded s) = true /\ batch_precheck s c = true /\ valid_claim c = true /\
+  c_nonce c = u64 (val_last s v + 1) /\ c_height (a_claim (vote_att s c)) = c_height c.
+Proof.
+  unfold vote_ok. rewrite !andb_true_iff, !Z.eqb_eq. tauto.
+Qed.
+
 Lemma Inv_vote s v known c : Inv s -> Inv (vote s v known c).
 Proof.
   intros I. unfold vote. destruct (vote_ok s v known c) eqn:Ok; [|exact I].
-  unfold vote_ok in Ok. apply andb_true_iff in Ok as [Ok Hh]. apply andb_true_iff in Ok as [Ok Hn].
-  apply andb_true_iff in Ok as [Hk Hv].
+  apply vote_ok_parts in Ok as (_ & _ & _ & Hv & _ & _).
   assert (Hva : forall a, vote_att s c = a -> NoDup (a_votes a) /\ c_nonce (a_claim a) = c_nonce c /\ c_h (a_claim a) = c_h c).
   { intros a <-. unfold vote_att. destruct (get_att (atts s) (c_nonce c) (c_h c)) as [a0|] eqn:G.
     - apply get_att_In in G. destruct (inv_key s I _ _ _ G). split; [eapply inv_nodup; eauto | auto].
@@ -297,6 +439,7 @@ Proof.
   - intros n h a H. apply set_att_In in H as [H|H]; [inversion H; subst; simpl; now apply add_vote_NoDup | eapply inv_nodup; eauto].
   - intros n h a H. apply set_att_In in H as [H|H]; [inversion H; subst; simpl; auto | eapply inv_key; eauto].
   - intros n h a H. apply set_att_In in H as [H|H]; [inversion H; subst; lia | eapply inv_valid; eauto].
+  - apply set_att_sorted. apply I.
 Qed.
 
 Lemma Inv_prune s : Inv s -> Inv (prune s).
@@ -306,6 +449,16 @@ Proof.
   - intros n h a H. apply filter_In in H as [H _]. eapply inv_nodup; eauto.
   - intros n h a H. apply filter_In in H as [H _]. eapply inv_key; eauto.
   - intros n h a H. apply filter_In in H as [H _]. eapply inv_valid; eauto.
+  - apply filter_sorted. apply I.
+Qed.
+
+Lemma Inv_regenesis s : Inv s -> Inv (regenesis s).
+Proof.
+  intros I. constructor; unfold regenesis; simpl; try apply I.
+  - intros n h a H. apply filter_In in H as [H _]. eapply inv_nodup; eauto.
+  - intros n h a H. apply filter_In in H as [H _]. eapply inv_key; eauto.
+  - intros n h a H. apply filter_In in H as [H _]. eapply inv_valid; eauto.
+  - apply filter_sorted. apply I.
 Qed.
 
 Lemma nonces_of_later_epoch ep0 ep l :
@@ -336,8 +489,12 @@ Proof.
   - now apply Inv_prune.
   - constructor; simpl; apply I.
   - constructor; simpl; apply I.
+  - constructor; simpl; apply I.
   - apply Inv_override; [exact I | apply u64_range].
   - apply Inv_override; [exact I | unfold two64; lia].
+  - unfold mk_batch. destruct (last_batch s <? bn); [constructor; simpl; apply I | exact I].
+  - constructor; simpl; apply I.
+  - now apply Inv_regenesis.
 Qed.
 
 Lemma run_snoc ops o : run (ops ++ [o]) = step (run ops) o.
@@ -348,6 +505,9 @@ Proof.
   induction ops as [|o ops IH] using rev_ind; [exact Inv_init|].
   rewrite run_snoc. now apply Inv_step.
 Qed.
+
+Lemma Inv_fold ops : forall s, Inv s -> Inv (fold_left step ops s).
+Proof. induction ops as [|o ops IH]; simpl; intros s I; [exact I | apply IH, Inv_step, I]. Qed.
 
 (** * Clauses that follow from the state invariant *)
 
@@ -383,7 +543,7 @@ Proof.
   apply zseq_consecutive.
 Qed.
 
-(** What the bank holds for a receiver is the sum over the effect log: every claim that took
+(** What the bank holds for a receiver is the sum over the effect log: every deposit that took
     effect and can be applied (registered token) paid exactly once, nothing else paid. *)
 Lemma effects_exactly_once_run ops r : zget0 (bal (run ops)) r = minted r (applied (run ops)).
 Proof. apply Inv_run. Qed.
@@ -391,7 +551,7 @@ Proof. apply Inv_run. Qed.
 (** * Frame: what a tally does not touch, and where its new effects come from *)
 Definition tally_frame (s0 s1 : state) : Prop :=
   pw s1 = pw s0 /\ total s1 = total s0 /\ epoch s1 = epoch s0 /\ epoch_cursor s1 = epoch_cursor s0 /\
-  vnonce s1 = vnonce s0 /\ compass s1 = compass s0.
+  vnonce s1 = vnonce s0 /\ compass s1 = compass s0 /\ bonded s1 = bonded s0 /\ last_batch s1 = last_batch s0.
 
 Definition atts_from (s0 s1 : state) : Prop :=
   forall n h a, In (n, h, a) (atts s1) ->
@@ -407,26 +567,41 @@ Definition effect_witness (s0 : state) (e : entry) : Prop :=
 Lemma tally_facts s0 : Inv s0 ->
   let s1 := fst (tally s0) in
   tally_frame s0 s1 /\ atts_from s0 s1 /\
-  (forall e, In e (applied s1) -> In e (applied s0) \/ effect_witness s0 e).
+  (forall e, In e (applied s1) -> In e (applied s0) \/ effect_witness s0 e) /\
+  incl (applied s0) (applied s1).
 Proof.
   intros I. unfold tally.
   apply (tally_loop_inv (fun s1 => tally_frame s0 s1 /\ atts_from s0 s1 /\
-          (forall e, In e (applied s1) -> In e (applied s0) \/ effect_witness s0 e))).
-  - intros s1 n h a vs Hin (Fr & Af & Ap) (rest & Hv & Hex & _). apply filter_In in Hin as [Hin Hcomp].
-    destruct Fr as (Fp & Ft & Fe & Fc & Fv & Fm).
+          (forall e, In e (applied s1) -> In e (applied s0) \/ effect_witness s0 e) /\
+          incl (applied s0) (applied s1))).
+  - intros s1 n h a vs Hin (Fr & Af & Ap & Inc) (rest & Hv & Hex & _). apply filter_In in Hin as [Hin Hcomp].
+    destruct Fr as (Fp & Ft & Fe & Fc & Fv & Fm & Fbo & Flb).
     destruct (inv_key s0 I _ _ _ Hin) as [Kn Kh].
-    split; [|split].
-    + unfold tally_frame, fire; simpl. auto 10.
-    + intros n1 h1 a1 H. unfold fire in H; simpl in H. apply set_att_In in H as [H|H].
+    destruct (fire_proj s1 a) as (Ga & Gl & Gh & Gv & Gc & Gp & Gt & Gb & Ge & Gec & Glb & Gap).
+    split; [|split; [|split]].
+    + unfold tally_frame. rewrite Gp, Gt, Ge, Gec, Gv, Gc, Gb, Glb. auto 10.
+    + intros n1 h1 a1 H. rewrite Ga in H. apply set_att_In in H as [H|H].
       * inversion H; subst. exists a. simpl. auto.
       * now apply Af.
-    + intros e H. unfold fire in H; simpl in H. apply in_app_iff in H as [H|[H|[]]]; [now apply Ap|].
+    + intros e H. rewrite Gap in H. apply in_app_iff in H as [H|[H|[]]]; [now apply Ap|].
       right. subst e. exists n, h, a, vs, rest. simpl.
       unfold required in *. rewrite Ft, Fp in Hex. auto 10.
-  - split; [|split].
+    + rewrite Gap. intros e H. apply in_app_iff. left. now apply Inc.
+  - split; [|split; [|split]].
     + unfold tally_frame. auto 10.
     + intros n h a H. exists a. auto.
     + auto.
+    + apply incl_refl.
+Qed.
+
+(** The effect log only grows. *)
+Lemma applied_incl_step s o : Inv s -> incl (applied s) (applied (step s o)).
+Proof.
+  intros I. destruct o; simpl; try apply incl_refl.
+  - unfold vote. destruct (vote_ok _ _ _ _); apply incl_refl.
+  - apply (tally_facts s I).
+  - unfold prune. destruct (_ <=? _); apply incl_refl.
+  - unfold mk_batch. destruct (_ <? _); apply incl_refl.
 Qed.
 
 (** * History invariant: every entry of a vote list comes from an accepted vote for that key *)
@@ -446,13 +621,12 @@ Proof.
   assert (Mono : forall v n h ht, vote_of ops v n h ht -> vote_of (ops ++ [o]) v n h ht).
   { intros v n h ht (c & A & E). exists c. split; [now apply accepted_vote_snoc | exact E]. }
   rewrite run_snoc. pose proof (Inv_run ops) as I. set (s := run ops) in *.
-  intros n h a v Hin Hv. destruct o; simpl in Hin.
+  intros n h a v Hin Hv. destruct o; simpl in Hin; try (apply Mono; eapply IH; eauto; fail).
   - (* Vote *)
     unfold vote in Hin. destruct (vote_ok s v0 known c) eqn:Ok; [|apply Mono; eapply IH; eauto].
     simpl in Hin. apply set_att_In in Hin as [Hin|Hin]; [|apply Mono; eapply IH; eauto].
     inversion Hin; subst n h a. clear Hin. simpl in *.
-    assert (Hh : c_height (a_claim (vote_att s c)) = c_height c).
-    { unfold vote_ok in Ok. apply andb_true_iff in Ok as [_ Ok]. now apply Z.eqb_eq in Ok. }
+    assert (Hh : c_height (a_claim (vote_att s c)) = c_height c) by (apply vote_ok_parts in Ok; tauto).
     apply add_vote_In in Hv as [Hv| ->].
     + unfold vote_att in *. destruct (get_att (atts s) (c_nonce c) (c_h c)) as [a0|] eqn:G; [|destruct Hv].
       apply get_att_In in G. apply Mono. eapply IH; eauto.
@@ -463,11 +637,14 @@ Proof.
   - (* Prune *)
     unfold prune in Hin. destruct (last_obs s <=? events_to_keep); [apply Mono; eapply IH; eauto|].
     simpl in Hin. apply filter_In in Hin as [Hin _]. apply Mono; eapply IH; eauto.
-  - apply Mono; eapply IH; eauto.
-  - apply Mono; eapply IH; eauto.
-  - apply Mono; eapply IH; eauto.
-  - apply Mono; eapply IH; eauto.
+  - (* MkBatch *)
+    unfold mk_batch in Hin. destruct (_ <? _); simpl in Hin; apply Mono; eapply IH; eauto.
+  - (* Regenesis *)
+    unfold regenesis in Hin. simpl in Hin. apply filter_In in Hin as [Hin _]. apply Mono; eapply IH; eauto.
 Qed.
+
+Lemma op_eq_tally (o : op) : {o = Tally} + {o <> Tally}.
+Proof. destruct o; (now left) || (right; discriminate). Qed.
 
 (** * The headline clause *)
 Definition same_or_collision (c c' : claim) : Prop :=
@@ -475,6 +652,15 @@ Definition same_or_collision (c c' : claim) : Prop :=
 
 Lemma claim_eq_dec (c c' : claim) : {c = c'} + {c <> c'}.
 Proof. decide equality; try apply Z.eq_dec; apply bool_dec. Qed.
+
+(** Operations other than Tally leave the effect log alone. *)
+Lemma applied_step_not_tally s o : o <> Tally -> applied (step s o) = applied s.
+Proof.
+  intros NT. destruct o; simpl; try reflexivity; try congruence.
+  - unfold vote. destruct (vote_ok _ _ _ _); reflexivity.
+  - unfold prune. destruct (_ <=? _); reflexivity.
+  - unfold mk_batch. destruct (_ <? _); reflexivity.
+Qed.
 
 Lemma observed_needs_gt66_distinct_run ops e :
   In e (applied (run ops)) ->
@@ -494,21 +680,19 @@ Proof.
     100 * power (pw (run ops1)) vs > 66 * total (run ops1)).
   { intros H. destruct (IH H) as (o1 & o2 & vs & E & R). exists o1, (o2 ++ [o]), vs.
     split; [|exact R]. rewrite E, <- app_assoc. reflexivity. }
-  destruct o; simpl in Hin; try (apply Old; exact Hin).
-  - (* Vote *) apply Old. unfold vote in Hin. destruct (vote_ok _ _ _ _); exact Hin.
-  - (* Tally *)
-    destruct (tally_facts _ I) as (_ & _ & Ap). apply Ap in Hin as [Hin|W]; [now apply Old|].
-    destruct W as (n & h & a & vs & rest & Ha & Ec & _ & Hv & Hex & _).
-    exists ops, [], vs. split; [reflexivity|]. split; [|split].
-    + apply (NoDup_app_l vs rest). rewrite <- Hv. eapply inv_nodup; eauto.
-    + intros v Hvin.
-      destruct (votes_have_history ops n h a v Ha) as (c & A & En & Eh & Eht).
-      { rewrite Hv. apply in_app_iff. now left. }
-      destruct (inv_key _ I _ _ _ Ha) as [Kn Kh].
-      exists c. rewrite Ec. split; [exact A|]. split; [congruence|]. split; [exact Eht|].
-      destruct (claim_eq_dec c (a_claim a)) as [E|NE]; [now left | right; split; [exact NE | congruence]].
-    + now apply exceeds_required.
-  - (* Prune *) apply Old. unfold prune in Hin. destruct (_ <=? _); exact Hin.
+  destruct (op_eq_tally o) as [->|NT]; [|apply Old; rewrite applied_step_not_tally in Hin; auto].
+  simpl in Hin.
+  destruct (tally_facts _ I) as (_ & _ & Ap & _). apply Ap in Hin as [Hin|W]; [now apply Old|].
+  destruct W as (n & h & a & vs & rest & Ha & Ec & _ & Hv & Hex & _).
+  exists ops, [], vs. split; [reflexivity|]. split; [|split].
+  + apply (NoDup_app_l vs rest). rewrite <- Hv. eapply inv_nodup; eauto.
+  + intros v Hvin.
+    destruct (votes_have_history ops n h a v Ha) as (c & A & En & Eh & Eht).
+    { rewrite Hv. apply in_app_iff. now left. }
+    destruct (inv_key _ I _ _ _ Ha) as [Kn Kh].
+    exists c. rewrite Ec. split; [exact A|]. split; [congruence|]. split; [exact Eht|].
+    destruct (claim_eq_dec c (a_claim a)) as [E|NE]; [now left | right; split; [exact NE | congruence]].
+  + now apply exceeds_required.
 Qed.
 
 (** Only claims of the current bridge deployment take effect: at the tally that applied it, the
@@ -524,45 +708,577 @@ Proof.
     (compass (run ops1) = 0 \/ c_compass (e_claim e) = compass (run ops1))).
   { intros H. destruct (IH H) as (o1 & o2 & E & R). exists o1, (o2 ++ [o]).
     split; [|exact R]. rewrite E, <- app_assoc. reflexivity. }
-  destruct o; simpl in Hin; try (apply Old; exact Hin).
-  - apply Old. unfold vote in Hin. destruct (vote_ok _ _ _ _); exact Hin.
-  - destruct (tally_facts _ I) as (_ & _ & Ap). apply Ap in Hin as [Hin|W]; [now apply Old|].
-    destruct W as (n & h & a & vs & rest & Ha & Ec & _ & _ & _ & Hc).
-    exists ops, []. split; [reflexivity|]. rewrite Ec.
-    unfold in_compass in Hc. simpl in Hc. apply orb_true_iff in Hc as [Hc|Hc]; apply Z.eqb_eq in Hc; auto.
-  - apply Old. unfold prune in Hin. destruct (_ <=? _); exact Hin.
+  destruct (op_eq_tally o) as [->|NT]; [|apply Old; rewrite applied_step_not_tally in Hin; auto].
+  simpl in Hin.
+  destruct (tally_facts _ I) as (_ & _ & Ap & _). apply Ap in Hin as [Hin|W]; [now apply Old|].
+  destruct W as (n & h & a & vs & rest & Ha & Ec & _ & _ & _ & Hc).
+  exists ops, []. split; [reflexivity|]. rewrite Ec.
+  unfold in_compass in Hc. simpl in Hc. apply orb_true_iff in Hc as [Hc|Hc]; apply Z.eqb_eq in Hc; auto.
 Qed.
 
+(** Every counted voter was, when its vote was accepted, the operator of a validator with a staking
+    record in status Bonded (a validator that left the set, was jailed out of it or was removed can
+    not vote; its EARLIER votes keep counting, with the power staking reports for it now). *)
+Lemma accepted_vote_was_bonded ops v c :
+  accepted_vote ops v c -> exists o1 o2 known, ops = o1 ++ Vote v known c :: o2 /\ known = true /\ In v (bonded (run o1)).
+Proof.
+  intros (o1 & o2 & kn & E & Ok). exists o1, o2, kn. apply vote_ok_parts in Ok as (K & B & _).
+  split; [exact E|]. split; [exact K|]. now apply mem_In.
+Qed.
+
+(** * Ledger invariant: the effects of the three handlers, each exactly once when it can run *)
+Definition rcv_of (e : entry) : Z := c_rcv (e_claim e).
+
+Record InvL (s : state) : Prop := {
+  invl_batch_le : forall b, In b (batches s) -> snd (fst b) <= last_batch s;
+  invl_exec : forall e, In e (applied s) -> ok_kind 1 e = true ->
+      c_amt (e_claim e) <= last_batch s /\ bget (batches s) (c_rcv (e_claim e)) (c_amt (e_claim e)) = None;
+  invl_exec_nodup : NoDup (map subject (filter (ok_kind 1) (applied s)));
+  invl_lic : forall x a, zget (lic s) x = Some a <->
+      exists e, In e (applied s) /\ ok_kind 2 e = true /\ subject e = (x, a);
+  invl_lic_nodup : NoDup (map rcv_of (filter (ok_kind 2) (applied s)));
+  invl_dep_ok : forall e, In e (applied s) -> c_kind (e_claim e) = 0 -> e_ok e = c_tok (e_claim e);
+  invl_sale_lic : forall e, In e (applied s) -> c_kind (e_claim e) = 2 -> c_tok (e_claim e) = true ->
+      zget (lic s) (c_rcv (e_claim e)) <> None
+}.
+
+Lemma InvL_init : InvL init.
+Proof.
+  constructor; simpl; try tauto; try constructor.
+  - discriminate.
+  - intros (e & [] & _).
+Qed.
+
+Lemma InvL_same s s' :
+  batches s' = batches s -> last_batch s' = last_batch s -> lic s' = lic s -> applied s' = applied s ->
+  InvL s -> InvL s'.
+Proof. intros E1 E2 E3 E4 I. constructor; rewrite ?E1, ?E2, ?E3, ?E4; apply I. Qed.
+
+Lemma filter_snoc_false {A} (f : A -> bool) l x : f x = false -> filter f (l ++ [x]) = filter f l.
+Proof. intros H. rewrite filter_app. simpl. rewrite H. apply app_nil_r. Qed.
+
+Lemma filter_snoc_true {A} (f : A -> bool) l x : f x = true -> filter f (l ++ [x]) = filter f l ++ [x].
+Proof. intros H. rewrite filter_app. simpl. now rewrite H. Qed.
+
+Lemma InvL_fire s a : InvL s -> InvL (fire s a).
+Proof.
+  intros I. unfold fire. set (c := a_claim a).
+  destruct (applicable s c) eqn:Ap.
+  - unfold effect. cbn [c_kind a_claim]. fold c.
+    destruct (c_kind c =? 0) eqn:K0; [|destruct (c_kind c =? 1) eqn:K1].
+    + (* deposit: mint *)
+      apply Z.eqb_eq in K0.
+      assert (F1 : ok_kind 1 (mkEntry (epoch s) c true) = false) by (unfold ok_kind; simpl; rewrite K0; reflexivity).
+      assert (F2 : ok_kind 2 (mkEntry (epoch s) c true) = false) by (unfold ok_kind; simpl; rewrite K0; reflexivity).
+      constructor; simpl; rewrite ?(filter_snoc_false _ _ _ F1), ?(filter_snoc_false _ _ _ F2); try apply I.
+      * intros e H Hk. apply in_app_iff in H as [H|[<-|[]]]; [now apply I | congruence].
+      * intros x a0. rewrite (invl_lic s I). split; intros (e & H & R).
+        -- exists e. split; [apply in_app_iff; now left | exact R].
+        -- apply in_app_iff in H as [H|[<-|[]]]; [eauto | destruct R; congruence].
+      * intros e H Hk. apply in_app_iff in H as [H|[<-|[]]]; [now apply I|].
+        simpl. unfold applicable in Ap. rewrite K0 in Ap. simpl in Ap. now rewrite Ap.
+      * intros e H Hk Ht. apply in_app_iff in H as [H|[<-|[]]]; [now apply I | simpl in Hk; lia].
+    + (* executed batch: delete the batch *)
+      apply Z.eqb_eq in K1.
+      assert (T1 : ok_kind 1 (mkEntry (epoch s) c true) = true) by (unfold ok_kind; simpl; rewrite K1; reflexivity).
+      assert (F2 : ok_kind 2 (mkEntry (epoch s) c true) = false) by (unfold ok_kind; simpl; rewrite K1; reflexivity).
+      unfold applicable in Ap. rewrite K0, (proj2 (Z.eqb_eq _ _) K1) in Ap.
+      destruct (bget (batches s) (c_rcv c) (c_amt c)) as [t|] eqn:G; [|discriminate].
+      pose proof (invl_batch_le s I _ (bget_Some _ _ _ _ G)) as Hle. simpl in Hle.
+      constructor; simpl; rewrite ?(filter_snoc_true _ _ _ T1), ?(filter_snoc_false _ _ _ F2); try apply I.
+      * intros b Hb. unfold bdel in Hb. apply filter_In in Hb as [Hb _]. now apply I.
+      * intros e H Hk. apply in_app_iff in H as [H|[<-|[]]].
+        -- destruct (invl_exec s I e H Hk) as [L N]. split; [exact L | now apply bget_bdel_None].
+        -- simpl. split; [exact Hle | apply bget_bdel_same].
+      * rewrite map_app. simpl. apply NoDup_snoc; [apply I|].
+        intros H. apply in_map_iff in H as (e & Es & He). apply filter_In in He as [He Hk].
+        destruct (invl_exec s I e He Hk) as [_ N]. unfold subject in Es. simpl in Es.
+        inversion Es as [[E1 E2]]. rewrite E1, E2 in N. congruence.
+      * intros x a0. rewrite (invl_lic s I). split; intros (e & H & R).
+        -- exists e. split; [apply in_app_iff; now left | exact R].
+        -- apply in_app_iff in H as [H|[<-|[]]]; [eauto | destruct R; congruence].
+      * intros e H Hk. apply in_app_iff in H as [H|[<-|[]]]; [now apply I | simpl in Hk; lia].
+      * intros e H Hk Ht. apply in_app_iff in H as [H|[<-|[]]]; [now apply I | simpl in Hk; lia].
+    + (* light-node sale: create the licence *)
+      unfold applicable in Ap. rewrite K0, K1 in Ap.
+      destruct (c_kind c =? 2) eqn:K2; [|discriminate]. apply Z.eqb_eq in K2.
+      apply andb_true_iff in Ap as [Tk Lc].
+      destruct (zget (lic s) (c_rcv c)) as [?|] eqn:G; [discriminate|].
+      assert (F1 : ok_kind 1 (mkEntry (epoch s) c true) = false) by (unfold ok_kind; simpl; rewrite K2; reflexivity).
+      assert (T2 : ok_kind 2 (mkEntry (epoch s) c true) = true) by (unfold ok_kind; simpl; rewrite K2; reflexivity).
+      constructor; simpl; rewrite ?(filter_snoc_false _ _ _ F1), ?(filter_snoc_true _ _ _ T2); try apply I.
+      * intros e H Hk. apply in_app_iff in H as [H|[<-|[]]]; [now apply I | congruence].
+      * intros x a0. rewrite zget_zset. destruct (x =? c_rcv c) eqn:Ex.
+        -- apply Z.eqb_eq in Ex. subst x. split.
+           ++ intros H. inversion H; subst a0. exists (mkEntry (epoch s) c true).
+              split; [apply in_app_iff; right; now left | split; [exact T2 | reflexivity]].
+           ++ intros (e & H & Hk & Es). apply in_app_iff in H as [H|[<-|[]]].
+              ** exfalso. assert (zget (lic s) (c_rcv c) = Some a0) by (apply (invl_lic s I); eauto). congruence.
+              ** unfold subject in Es. simpl in Es. congruence.
+        -- rewrite (invl_lic s I). split; intros (e & H & R).
+           ++ exists e. split; [apply in_app_iff; now left | exact R].
+           ++ apply in_app_iff in H as [H|[<-|[]]]; [eauto|].
+              destruct R as [_ R]. unfold subject in R. simpl in R. inversion R. apply Z.eqb_neq in Ex. congruence.
+      * rewrite map_app. simpl. apply NoDup_snoc; [apply I|].
+        intros H. apply in_map_iff in H as (e & Es & He). apply filter_In in He as [He Hk].
+        unfold rcv_of in Es. simpl in Es.
+        assert (zget (lic s) (c_rcv c) = Some (c_amt (e_claim e))).
+        { apply (invl_lic s I). exists e. split; [exact He|]. split; [exact Hk|]. unfold subject. now rewrite Es. }
+        congruence.
+      * intros e H Hk. apply in_app_iff in H as [H|[<-|[]]]; [now apply I | simpl in Hk; lia].
+      * intros e H Hk Ht. rewrite zget_zset.
+        destruct (c_rcv (e_claim e) =? c_rcv c) eqn:Ex; [discriminate|].
+        apply in_app_iff in H as [H|[<-|[]]]; [now apply I|]. simpl in Ex. rewrite Z.eqb_refl in Ex. discriminate.
+  - (* the handler fails: nothing but the log entry *)
+    assert (F : forall k, ok_kind k (mkEntry (epoch s) c false) = false) by reflexivity.
+    constructor; simpl; rewrite ?(filter_snoc_false _ _ _ (F 1)), ?(filter_snoc_false _ _ _ (F 2)); try apply I.
+    + intros e H Hk. apply in_app_iff in H as [H|[<-|[]]]; [now apply I | discriminate].
+    + intros x a0. rewrite (invl_lic s I). split; intros (e & H & R).
+      * exists e. split; [apply in_app_iff; now left | exact R].
+      * apply in_app_iff in H as [H|[<-|[]]]; [eauto | destruct R; discriminate].
+    + intros e H Hk. apply in_app_iff in H as [H|[<-|[]]]; [now apply I|].
+      simpl in *. unfold applicable in Ap. rewrite Hk in Ap. simpl in Ap. now rewrite Ap.
+    + intros e H Hk Ht. apply in_app_iff in H as [H|[<-|[]]]; [now apply I|].
+      simpl in *. unfold applicable in Ap. rewrite Hk, Ht in Ap. simpl in Ap.
+      destruct (zget (lic s) (c_rcv c)); [discriminate | discriminate].
+Qed.
+
+Lemma InvL_step s o : InvL s -> InvL (step s o).
+Proof.
+  intros I. destruct o; simpl; try (apply (InvL_same s); [reflexivity..|exact I]).
+  - unfold vote. destruct (vote_ok _ _ _ _); [apply (InvL_same s); [reflexivity..|exact I] | exact I].
+  - unfold tally. apply tally_loop_inv; [|exact I]. intros. now apply InvL_fire.
+  - unfold prune. destruct (_ <=? _); [exact I | apply (InvL_same s); [reflexivity..|exact I]].
+  - (* MkBatch: the batch nonce is above every nonce handed out before *)
+    unfold mk_batch. destruct (last_batch s <? bn) eqn:L; [|exact I]. apply Z.ltb_lt in L.
+    constructor; simpl; try apply I.
+    + intros b Hb. apply in_app_iff in Hb as [Hb|[<-|[]]]; [apply (invl_batch_le s I) in Hb; lia | simpl; lia].
+    + intros e H Hk. destruct (invl_exec s I e H Hk) as [Le N]. split; [lia|].
+      apply bget_app_None; [exact N|]. unfold bkeyb. simpl.
+      apply andb_false_iff. right. apply Z.eqb_neq. lia.
+  - (* DropBatch *)
+    constructor; simpl; try apply I.
+    + intros b Hb. unfold bdel in Hb. apply filter_In in Hb as [Hb _]. now apply I.
+    + intros e H Hk. destruct (invl_exec s I e H Hk) as [Le N]. split; [exact Le | now apply bget_bdel_None].
+Qed.
+
+Lemma InvL_run ops : InvL (run ops).
+Proof.
+  induction ops as [|o ops IH] using rev_ind; [exact InvL_init|].
+  rewrite run_snoc. now apply InvL_step.
+Qed.
+
+(** An executed-batch claim is applied to a batch at most once, and that batch is gone for good. *)
+Lemma batch_executed_once_run ops :
+  NoDup (map subject (filter (ok_kind 1) (applied (run ops)))) /\
+  forall e, In e (applied (run ops)) -> ok_kind 1 e = true ->
+    bget (batches (run ops)) (c_rcv (e_claim e)) (c_amt (e_claim e)) = None.
+Proof.
+  split; [apply InvL_run|]. intros e H Hk. now apply (invl_exec _ (InvL_run ops) e H Hk).
+Qed.
+
+(** Licences are exactly the sale claims whose handler ran, one per client; a sale claim naming the
+    registered sale contract that took effect leaves its client with a licence. *)
+Lemma sale_licences_run ops :
+  NoDup (map rcv_of (filter (ok_kind 2) (applied (run ops)))) /\
+  (forall x a, zget (lic (run ops)) x = Some a <->
+      exists e, In e (applied (run ops)) /\ ok_kind 2 e = true /\ subject e = (x, a)) /\
+  (forall e, In e (applied (run ops)) -> c_kind (e_claim e) = 2 -> c_tok (e_claim e) = true ->
+      zget (lic (run ops)) (c_rcv (e_claim e)) <> None).
+Proof. pose proof (InvL_run ops) as I. split; [apply I|]. split; apply I. Qed.
+
+(** A deposit's handler runs exactly when its token is a registered bridge token. *)
+Lemma deposit_applicable_run ops e :
+  In e (applied (run ops)) -> c_kind (e_claim e) = 0 -> e_ok e = c_tok (e_claim e).
+Proof. apply InvL_run. Qed.
+
+(** * Liveness notes as theorems: what stalls a chain's oracle, and until when
+
+    Two situations make [attestationTally] return an error at the attestation it is about to try,
+    before any attestation sorted after it (same nonce, higher claim hash) is looked at:
+    (1) the attestation at cursor+1 is ALREADY observed — reachable only through a reset to a lower
+        nonce (governance override, chain re-activation): the honest validators re-submit the same
+        events, i.e. the same claim hashes, and land on the old, observed attestations;
+    (2) the attestation at cursor+1 has the votes but its remote height is below the last observed
+        remote height (refused by SetLastObservedEthereumBlockHeight; since repair F2b nothing is
+        written).
+    Neither is a safety violation (nothing takes effect); both last until a reset operation. *)
+Definition next_nonce (s : state) : Z := u64 (last_obs s + 1).
+
+Definition stalled_observed (s : state) (h : Z) : Prop :=
+  exists a, In (next_nonce s, h, a) (atts s) /\ in_compass s (next_nonce s, h, a) = true /\ a_obs a = true.
+
+Definition stalled_height (s : state) (h : Z) : Prop :=
+  exists a, In (next_nonce s, h, a) (atts s) /\ in_compass s (next_nonce s, h, a) = true /\
+    a_obs a = false /\ c_height (a_claim a) < last_height s.
+
+Definition frozen (s0 s : state) : Prop :=
+  last_obs s = last_obs s0 /\ last_height s = last_height s0 /\ epoch s = epoch s0 /\
+  compass s = compass s0 /\ applied s = applied s0.
+
+(** The only ways out without a reset: another claim takes effect at that nonce. *)
+Definition escaped_lower (s0 s : state) (h : Z) : Prop :=
+  exists e, In e (applied s) /\ e_epoch e = epoch s0 /\ e_nonce e = next_nonce s0 /\ c_h (e_claim e) < h.
+Definition escaped_other (s0 s : state) (h : Z) : Prop :=
+  exists e, In e (applied s) /\ e_epoch e = epoch s0 /\ e_nonce e = next_nonce s0 /\ c_h (e_claim e) <> h.
+
+Lemma frozen_refl s : frozen s s. Proof. repeat split. Qed.
+Lemma frozen_trans a b c : frozen a b -> frozen b c -> frozen a c.
+Proof. unfold frozen. intros (A1 & A2 & A3 & A4 & A5) (B1 & B2 & B3 & B4 & B5). repeat split; congruence. Qed.
+
+Lemma try_att_false_same s a : snd (try_att s a) = false -> fst (try_att s a) = s.
+Proof.
+  unfold try_att. rewrite src_height_first. destruct (a_obs a); [reflexivity|].
+  destruct (fire_prefix _ _ _ _); [|discriminate].
+  destruct (negb _); [reflexivity|]. destruct (_ >? _); [reflexivity | discriminate].
+Qed.
+
+Lemma observed_blocks s a : a_obs a = true -> snd (try_att s a) = false.
+Proof. intros H. unfold try_att. now rewrite H. Qed.
+
+Lemma refused_blocks s a :
+  a_obs a = false -> fire_prefix (pw s) (required s) 0 (a_votes a) <> None ->
+  c_height (a_claim a) < last_height s -> snd (try_att s a) = false.
+Proof.
+  intros Ho Hq Hh. unfold try_att. rewrite Ho, src_height_first.
+  destruct (fire_prefix _ _ _ _); [|congruence].
+  destruct (negb _); [reflexivity|].
+  assert (E : last_height s >? c_height (a_claim a) = true) by (rewrite Z.gtb_ltb; now apply Z.ltb_lt).
+  now rewrite E.
+Qed.
+
+Lemma tally_loop_applied_incl l s : incl (applied s) (applied (fst (tally_loop l s))).
+Proof.
+  apply (tally_loop_inv (fun s1 => incl (applied s) (applied s1))); [|apply incl_refl].
+  intros s1 n h a vs _ Inc _. destruct (fire_proj s1 a) as (_ & _ & _ & _ & _ & _ & _ & _ & _ & _ & _ & Gap).
+  rewrite Gap. intros e H. apply in_app_iff. left. now apply Inc.
+Qed.
+
+(** The loop, at a blocking attestation: either nothing happens and the tally reports an error, or
+    an attestation of the same nonce sorted BEFORE it fired. *)
+Lemma tally_loop_blocked l : forall s n h a,
+  StronglySorted klt l -> In (n, h, a) l -> n = u64 (last_obs s + 1) -> snd (try_att s a) = false ->
+  tally_loop l s = (s, false) \/
+  exists h' a' vs, In (n, h', a') l /\ h' < h /\ fires_in s a' vs /\
+     incl (applied (fire s a')) (applied (fst (tally_loop l s))).
+Proof.
+  induction l as [|[[n0 h0] a0] r IH]; intros s n h a S Hin Hn Hb; [destruct Hin|].
+  apply StronglySorted_inv in S as [S F]. rewrite Forall_forall in F.
+  simpl. destruct Hin as [Hin|Hin].
+  - inversion Hin; subst n0 h0 a0. rewrite <- Hn, Z.eqb_refl.
+    left. pose proof (try_att_false_same s a Hb) as X.
+    destruct (try_att s a) as [s' b]. simpl in *. subst. reflexivity.
+  - pose proof (F _ Hin) as L. rewrite klt_spec in L. simpl in L.
+    destruct (n0 =? u64 (last_obs s + 1)) eqn:E0.
+    + apply Z.eqb_eq in E0. assert (n0 = n) by congruence. subst n0. assert (h0 < h) by lia.
+      destruct (try_att_cases s a0) as [Es|(vs & Hf & Ef)].
+      * destruct (try_att s a0) as [s' b]. simpl in Es. subst s'. destruct b; [|now left].
+        destruct (IH s n h a S Hin Hn Hb) as [X|(h' & a' & vs & Hi & Hl & Hf & Hinc)]; [now left|].
+        right. exists h', a', vs. split; [now right|]. auto.
+      * rewrite Ef. right. exists h0, a0, vs. split; [left; congruence|]. split; [lia|]. split; [exact Hf|].
+        apply tally_loop_applied_incl.
+    + destruct (IH s n h a S Hin Hn Hb) as [X|(h' & a' & vs & Hi & Hl & Hf & Hinc)]; [now left|].
+      right. exists h', a', vs. split; [now right|]. auto.
+Qed.
+
+(** One tally at a blocker (either kind): it aborts without writing anything, unless a claim with
+    a LOWER hash at that nonce takes effect in it. *)
+Lemma tally_aborts_at_blocker s h a : Inv s ->
+  In (next_nonce s, h, a) (atts s) -> in_compass s (next_nonce s, h, a) = true -> snd (try_att s a) = false ->
+  tally s = (s, false) \/ escaped_lower s (fst (tally s)) h.
+Proof.
+  intros I Hin Hc Hb. unfold tally.
+  destruct (tally_loop_blocked (filter (in_compass s) (atts s)) s (next_nonce s) h a) as [X|(h' & a' & vs & Hi & Hl & Hf & Hinc)].
+  - apply filter_sorted, I.
+  - apply filter_In. auto.
+  - reflexivity.
+  - exact Hb.
+  - now left.
+  - right. apply filter_In in Hi as [Hi _]. destruct (inv_key s I _ _ _ Hi) as [Kn Kh].
+    exists (mkEntry (epoch s) (a_claim a') (applicable s (a_claim a'))).
+    split; [|simpl; unfold e_nonce; simpl; repeat split; [exact Kn | lia]].
+    apply Hinc. destruct (fire_proj s a') as (_ & _ & _ & _ & _ & _ & _ & _ & _ & _ & _ & Gap).
+    rewrite Gap. apply in_app_iff. right. now left.
+Qed.
+
+Lemma get_att_of_In l n h a : StronglySorted klt l -> In (n, h, a) l -> get_att l n h = Some a.
+Proof.
+  intros S Hin. destruct (get_att l n h) as [a'|] eqn:G.
+  - apply get_att_In in G. f_equal. eapply sorted_unique; eauto.
+  - exfalso. clear S. induction l as [|[[n' h'] a'] r IH]; simpl in *; [tauto|].
+    destruct (keyeqb n h n' h') eqn:E; [discriminate|].
+    destruct Hin as [Hin|Hin]; [|auto]. inversion Hin; subst.
+    assert (keyeqb n h n h = true) by (apply keyeqb_true; auto). congruence.
+Qed.
+
+Lemma set_att_In_new l n h a : In (n, h, a) (set_att l n h a).
+Proof.
+  induction l as [|[[n' h'] a'] r IH]; simpl; [now left|].
+  destruct (keyeqb n h n' h'); [now left|]. destruct (keyltb n h n' h'); [now left | now right].
+Qed.
+
+(** Operations other than a tally or a reset keep the cursor, the effect log and the attestation at
+    cursor+1 (its vote list may grow; its observed flag and stored claim stay). *)
+Lemma nontally_keeps s o h a : Inv s -> is_reset o = false -> o <> Tally ->
+  In (next_nonce s, h, a) (atts s) ->
+  frozen s (step s o) /\
+  exists a', In (next_nonce s, h, a') (atts (step s o)) /\ a_obs a' = a_obs a /\ a_claim a' = a_claim a.
+Proof.
+  intros I NR NT Hin.
+  assert (Same : forall s', frozen s s' -> atts s' = atts s ->
+    frozen s s' /\ exists a', In (next_nonce s, h, a') (atts s') /\ a_obs a' = a_obs a /\ a_claim a' = a_claim a).
+  { intros s' Fz Ea. split; [exact Fz|]. exists a. rewrite Ea. auto. }
+  destruct o; cbn [step is_reset] in *; try discriminate; try congruence;
+    try (apply Same; [repeat split | reflexivity]; fail).
+  - (* Vote *)
+    unfold vote. destruct (vote_ok s v known c) eqn:Ok; [|apply Same; [apply frozen_refl | reflexivity]].
+    split; [repeat split|]. simpl.
+    destruct (set_att_keeps (atts s) (c_nonce c) (c_h c)
+                (mkAtt (add_vote (a_votes (vote_att s c)) v) (a_obs (vote_att s c)) (a_claim (vote_att s c)))
+                _ _ _ Hin) as [[En Eh]|K].
+    + assert (Va : vote_att s c = a).
+      { unfold vote_att. rewrite <- En, <- Eh, (get_att_of_In _ _ _ _ (inv_sorted s I) Hin). reflexivity. }
+      eexists. split; [rewrite En, Eh; apply set_att_In_new|]. simpl. rewrite Va. auto.
+    + exists a. auto.
+  - (* Prune *)
+    unfold prune. destruct (last_obs s <=? events_to_keep) eqn:E; [apply Same; [apply frozen_refl | reflexivity]|].
+    split; [repeat split|]. exists a. split; [|auto]. simpl. apply filter_In. split; [exact Hin|].
+    apply negb_true_iff, andb_false_iff. right. simpl. apply Z.ltb_ge.
+    pose proof (inv_valid s I _ _ _ Hin) as V. pose proof (inv_last s I) as L.
+    unfold next_nonce in *. rewrite (u64_succ (last_obs s) L) by lia.
+    apply Z.leb_gt in E. unfold events_to_keep in *. pose proof src_keep. lia.
+  - (* MkBatch *)
+    unfold mk_batch. destruct (_ <? _); apply Same; repeat split.
+Qed.
+
+Lemma in_compass_same s s' n h a a' :
+  compass s' = compass s -> a_claim a' = a_claim a -> in_compass s' (n, h, a') = in_compass s (n, h, a).
+Proof. intros Ec Ea. unfold in_compass. simpl. now rewrite Ec, Ea. Qed.
+
+(** (1) one step from a state stalled at an observed attestation *)
+Lemma stall_step_observed s o h : Inv s -> stalled_observed s h -> is_reset o = false ->
+  (frozen s (step s o) /\ stalled_observed (step s o) h) \/ escaped_lower s (step s o) h.
+Proof.
+  intros I (a & Hin & Hc & Ho) NR.
+  destruct (op_eq_tally o) as [->|NT].
+  - simpl. destruct (tally_aborts_at_blocker s h a I Hin Hc (observed_blocks s a Ho)) as [E|E]; [|now right].
+    left. rewrite E. simpl. split; [apply frozen_refl|]. exists a. auto.
+  - left. destruct (nontally_keeps s o h a I NR NT Hin) as (Fz & a' & Hin' & Eo & Ec).
+    split; [exact Fz|]. destruct Fz as (F1 & _ & _ & F4 & _).
+    exists a'. unfold next_nonce. rewrite F1. fold (next_nonce s).
+    split; [exact Hin'|]. split; [|congruence].
+    rewrite (in_compass_same s (step s o) _ _ a a' F4 Ec). exact Hc.
+Qed.
+
+(** (2) one step from a state whose next attestation is refused for its remote height *)
+Lemma stall_step_height s o h : Inv s -> stalled_height s h -> is_reset o = false ->
+  (frozen s (step s o) /\ stalled_height (step s o) h) \/ escaped_other s (step s o) h.
+Proof.
+  intros I (a & Hin & Hc & Ho & Hh) NR.
+  destruct (op_eq_tally o) as [->|NT].
+  - simpl. unfold tally.
+    assert (Q : fst (tally_loop (filter (in_compass s) (atts s)) s) = s \/
+                escaped_other s (fst (tally_loop (filter (in_compass s) (atts s)) s)) h).
+    { apply (tally_loop_inv (fun x => x = s \/ escaped_other s x h)); [|now left].
+      intros s1 n0 h0 a0 vs Hi [->|(e & He & R)] Hf.
+      - right. apply filter_In in Hi as [Hi _]. destruct (inv_key s I _ _ _ Hi) as [Kn Kh].
+        destruct Hf as (rest & _ & _ & Hob & Hnn & Hhh).
+        destruct (fire_proj s a0) as (_ & _ & _ & _ & _ & _ & _ & _ & _ & _ & _ & Gap).
+        exists (mkEntry (epoch s) (a_claim a0) (applicable s (a_claim a0))).
+        split; [rewrite Gap; apply in_app_iff; right; now left|].
+        simpl. unfold e_nonce. simpl. split; [reflexivity|]. split; [exact Hnn|].
+        rewrite Kh. intros Eh. assert (En : n0 = next_nonce s) by (unfold next_nonce; congruence).
+        rewrite En, Eh in Hi.
+        assert (a0 = a) by (eapply sorted_unique; [apply I | exact Hi | exact Hin]). subst a0. lia.
+      - right. exists e. split; [|exact R].
+        destruct (fire_proj s1 a0) as (_ & _ & _ & _ & _ & _ & _ & _ & _ & _ & _ & Gap).
+        rewrite Gap. apply in_app_iff. now left. }
+    destruct Q as [E|E]; [|now right]. left. rewrite E. split; [apply frozen_refl|]. exists a. auto.
+  - left. destruct (nontally_keeps s o h a I NR NT Hin) as (Fz & a' & Hin' & Eo & Ec).
+    split; [exact Fz|]. destruct Fz as (F1 & F2 & _ & F4 & _).
+    exists a'. unfold next_nonce. rewrite F1, F2. fold (next_nonce s).
+    split; [exact Hin'|]. split; [|split; congruence].
+    rewrite (in_compass_same s (step s o) _ _ a a' F4 Ec). exact Hc.
+Qed.
+
+Lemma no_reset_snoc ops o :
+  forallb (fun o => negb (is_reset o)) (ops ++ [o]) = true ->
+  forallb (fun o => negb (is_reset o)) ops = true /\ is_reset o = false.
+Proof.
+  rewrite forallb_app. simpl. rewrite !andb_true_iff, negb_true_iff. tauto.
+Qed.
+
+(** Until a reset: the cursor does not move and nothing takes effect, whatever is voted, however
+    the powers change — unless a claim with a lower hash takes effect at that very nonce. *)
+Lemma stalls_until_override_fold ops : forall s h, Inv s -> stalled_observed s h ->
+  forallb (fun o => negb (is_reset o)) ops = true ->
+  (frozen s (fold_left step ops s) /\ stalled_observed (fold_left step ops s) h) \/
+  escaped_lower s (fold_left step ops s) h.
+Proof.
+  induction ops as [|o ops IH] using rev_ind; intros s h I St NR.
+  - left. split; [apply frozen_refl | exact St].
+  - apply no_reset_snoc in NR as [NR No]. rewrite fold_left_app. simpl.
+    pose proof (IH s h I St NR) as X. pose proof (Inv_fold ops s I) as I1.
+    remember (fold_left step ops s) as s1 eqn:Es1. clear Es1 IH.
+    destruct X as [[Fz St1]|(e & He & R)].
+    + destruct (stall_step_observed s1 o h I1 St1 No) as [[Fz2 St2]|(e & He & Ee & En & Eh)].
+      * left. split; [eapply frozen_trans; eauto | exact St2].
+      * right. destruct Fz as (F1 & _ & F3 & _). exists e. split; [exact He|].
+        unfold next_nonce in *. rewrite <- F1, <- F3. auto.
+    + right. exists e. split; [|exact R]. now apply (applied_incl_step s1 o I1).
+Qed.
+
+Lemma stalls_on_refused_height_fold ops : forall s h, Inv s -> stalled_height s h ->
+  forallb (fun o => negb (is_reset o)) ops = true ->
+  (frozen s (fold_left step ops s) /\ stalled_height (fold_left step ops s) h) \/
+  escaped_other s (fold_left step ops s) h.
+Proof.
+  induction ops as [|o ops IH] using rev_ind; intros s h I St NR.
+  - left. split; [apply frozen_refl | exact St].
+  - apply no_reset_snoc in NR as [NR No]. rewrite fold_left_app. simpl.
+    pose proof (IH s h I St NR) as X. pose proof (Inv_fold ops s I) as I1.
+    remember (fold_left step ops s) as s1 eqn:Es1. clear Es1 IH.
+    destruct X as [[Fz St1]|(e & He & R)].
+    + destruct (stall_step_height s1 o h I1 St1 No) as [[Fz2 St2]|(e & He & Ee & En & Eh)].
+      * left. split; [eapply frozen_trans; eauto | exact St2].
+      * right. destruct Fz as (F1 & _ & F3 & _). exists e. split; [exact He|].
+        unfold next_nonce in *. rewrite <- F1, <- F3. auto.
+    + right. exists e. split; [|exact R]. now apply (applied_incl_step s1 o I1).
+Qed.
+
+(** Stated over histories: [ops0] is any history, [ops] any continuation without a reset. *)
+Lemma stalls_until_override_run ops0 ops h :
+  stalled_observed (run ops0) h -> forallb (fun o => negb (is_reset o)) ops = true ->
+  (frozen (run ops0) (run (ops0 ++ ops)) /\ stalled_observed (run (ops0 ++ ops)) h) \/
+  escaped_lower (run ops0) (run (ops0 ++ ops)) h.
+Proof.
+  intros St NR. replace (run (ops0 ++ ops)) with (fold_left step ops (run ops0)) by (unfold run; now rewrite fold_left_app).
+  apply stalls_until_override_fold; [apply Inv_run | exact St | exact NR].
+Qed.
+
+Lemma stalls_on_refused_height_run ops0 ops h :
+  stalled_height (run ops0) h -> forallb (fun o => negb (is_reset o)) ops = true ->
+  (frozen (run ops0) (run (ops0 ++ ops)) /\ stalled_height (run (ops0 ++ ops)) h) \/
+  escaped_other (run ops0) (run (ops0 ++ ops)) h.
+Proof.
+  intros St NR. replace (run (ops0 ++ ops)) with (fold_left step ops (run ops0)) by (unfold run; now rewrite fold_left_app).
+  apply stalls_on_refused_height_fold; [apply Inv_run | exact St | exact NR].
+Qed.
+
+(** While stalled every tally reports an error and writes nothing (or is the escape). *)
+Lemma tally_aborts_while_stalled_run ops h :
+  stalled_observed (run ops) h \/
+  (exists a, In (next_nonce (run ops), h, a) (atts (run ops)) /\ in_compass (run ops) (next_nonce (run ops), h, a) = true /\
+     a_obs a = false /\ c_height (a_claim a) < last_height (run ops) /\
+     fire_prefix (pw (run ops)) (required (run ops)) 0 (a_votes a) <> None) ->
+  tally (run ops) = (run ops, false) \/ escaped_lower (run ops) (fst (tally (run ops))) h.
+Proof.
+  intros [(a & Hin & Hc & Ho)|(a & Hin & Hc & Ho & Hh & Hq)].
+  - apply (tally_aborts_at_blocker _ h a (Inv_run ops) Hin Hc). now apply observed_blocks.
+  - apply (tally_aborts_at_blocker _ h a (Inv_run ops) Hin Hc). now apply refused_blocks.
+Qed.
+
+(** * Genesis export + import as an operation of the histories: what it keeps and what it drops *)
+Lemma regenesis_facts s :
+  last_obs (regenesis s) = last_obs s /\ applied (regenesis s) = applied s /\ epoch (regenesis s) = epoch s /\
+  compass (regenesis s) = 0 /\ last_height (regenesis s) = 0 /\
+  (forall x, In x (atts (regenesis s)) <-> In x (atts s) /\ in_compass s x = true).
+Proof. unfold regenesis. simpl. do 5 (split; [reflexivity|]). intros x. apply filter_In. Qed.
+
 (** * Non-vacuity: concrete histories *)
-Definition cl (n h ht amt : Z) : claim := mkClaim n h ht 0 1 amt true.
+Definition cl (n h ht amt : Z) : claim := mkClaim n h ht 0 0 1 amt true.
+Definition five : list op := [SetPowers [(0,1);(1,1);(2,1);(3,1);(4,1)] 5; SetBonded [0;1;2;3;4]].
+Definition all (c : claim) : list op := map (fun v => Vote v true c) [0;1;2;3;4].
 
 (** Three of five equal validators: 3/5 = 60% is not enough; the fourth makes it 80%. *)
 Example ex_threshold :
   let votes k := map (fun v => Vote v true (cl 1 7 110 500)) k in
-  applied (run (SetPowers [(0,1);(1,1);(2,1);(3,1);(4,1)] 5 :: votes [0;1;2] ++ [Tally])) = [] /\
-  applied (run (SetPowers [(0,1);(1,1);(2,1);(3,1);(4,1)] 5 :: votes [0;1;2;3] ++ [Tally]))
-    = [mkEntry 0 (cl 1 7 110 500) true] /\
-  zget0 (bal (run (SetPowers [(0,1);(1,1);(2,1);(3,1);(4,1)] 5 :: votes [0;1;2;3] ++ [Tally; Tally]))) 1 = 500.
+  applied (run (five ++ votes [0;1;2] ++ [Tally])) = [] /\
+  applied (run (five ++ votes [0;1;2;3] ++ [Tally])) = [mkEntry 0 (cl 1 7 110 500) true] /\
+  zget0 (bal (run (five ++ votes [0;1;2;3] ++ [Tally; Tally]))) 1 = 500.
 Proof. vm_compute. auto. Qed.
 
 (** The history that broke the pinned tree: one validator of five re-votes after every governance
     reset.  Its vote list stays [0] and nothing takes effect. *)
 Example ex_revote_after_reset :
-  let s := run [SetPowers [(0,1);(1,1);(2,1);(3,1);(4,1)] 5;
-                Vote 0 true (cl 1 7 110 777); Override 0; Vote 0 true (cl 1 7 110 777); Override 0;
-                Vote 0 true (cl 1 7 110 777); Override 0; Vote 0 true (cl 1 7 110 777); Tally] in
+  let s := run (five ++ [Vote 0 true (cl 1 7 110 777); Override 0; Vote 0 true (cl 1 7 110 777); Override 0;
+                Vote 0 true (cl 1 7 110 777); Override 0; Vote 0 true (cl 1 7 110 777); Tally]) in
   map (fun x => a_votes (snd x)) (atts s) = [[0]] /\ applied s = [] /\ epoch s = 3.
 Proof. vm_compute. auto. Qed.
 
 (** Two epochs, consecutive nonces in each, the same nonce taking effect again after a reset (with
     another claim), a claim below the last observed height not moving the cursor. *)
 Example ex_epochs :
-  let all c := map (fun v => Vote v true c) [0;1;2;3;4] in
-  let s := run (SetPowers [(0,1);(1,1);(2,1);(3,1);(4,1)] 5 ::
-                all (cl 1 7 110 10) ++ all (cl 2 8 120 20) ++ [Tally; Override 1] ++
+  let s := run (five ++ all (cl 1 7 110 10) ++ all (cl 2 8 120 20) ++ [Tally; Override 1] ++
                 all (cl 2 6 130 30) ++ [Tally] ++ all (cl 3 5 1 40) ++ [Tally]) in
   nonces_of_epoch 0 (applied s) = [1; 2] /\ nonces_of_epoch 1 (applied s) = [2] /\
   last_obs s = 2 /\ epoch_cursor s = 1 /\ zget0 (bal s) 1 = 60.
+Proof. vm_compute. auto 10. Qed.
+
+(** Validators leaving the set: a vote of a validator that is not bonded is refused; the votes it
+    cast while bonded keep counting with the power staking reports for it at the tally (0 once it
+    left, whether or not its staking record still exists). *)
+Example ex_valset_changes :
+  let votes k := map (fun v => Vote v true (cl 1 7 110 500)) k in
+  (* 3 is not bonded when it votes: 3 of 5 voted, nothing fires *)
+  applied (run (five ++ [SetBonded [0;1;2;4]] ++ votes [0;1;2;3] ++ [Tally])) = [] /\
+  (* 0..3 voted while bonded; 2 and 3 then leave and staking reports power 0: 2 of total 3 = 66.7% > 66% *)
+  length (applied (run (five ++ votes [0;1;2;3] ++ [SetBonded [0;1;4]; SetPowers [(0,1);(1,1);(4,1)] 3; Tally]))) = 1%nat /\
+  (* … but with the total unchanged 2 of 5 is not enough *)
+  applied (run (five ++ votes [0;1;2;3] ++ [SetBonded [0;1;4]; SetPowers [(0,1);(1,1);(4,1)] 5; Tally])) = [].
+Proof. vm_compute. auto. Qed.
+
+(** The three claim types: an executed-batch claim deletes its pending batch once (a second claim for
+    the same batch takes effect as an event but its handler cannot run); a sale claim creates the
+    client's licence once. *)
+Example ex_claim_types :
+  let bc n := mkClaim n (10 + n) (100 + n) 0 1 9 4 false in          (* batch (token 9, nonce 4) executed *)
+  let sc n amt := mkClaim n (20 + n) (100 + n) 0 2 33 amt true in    (* sale to client 33 *)
+  let s := run (five ++ [MkBatch 9 4 1000] ++ all (bc 1) ++ all (bc 2) ++ all (sc 3 50) ++ all (sc 4 60) ++ [Tally]) in
+  map e_ok (applied s) = [true; false; true; false] /\ batches s = [] /\ lic s = [(33, 50)] /\ last_obs s = 4.
+Proof. vm_compute. auto. Qed.
+
+(** Stall (1): after an override to a lower nonce the honest majority re-submits event 1 and lands on
+    the old observed attestation; a competing claim with a HIGHER hash, voted by 4 of 5, is never
+    tried — every tally reports an error and the cursor stays at 0 — until governance overrides
+    again.  A competing claim with a LOWER hash does get through (the escape of the theorem). *)
+Example ex_stall_observed :
+  let pre := five ++ all (cl 1 7 110 10) ++ [Tally; Override 0] in
+  let hi := pre ++ [Vote 0 true (cl 1 7 110 10)] ++ map (fun v => Vote v true (cl 1 9 111 99)) [1;2;3;4] in
+  let lo := pre ++ [Vote 0 true (cl 1 7 110 10)] ++ map (fun v => Vote v true (cl 1 5 111 99)) [1;2;3;4] in
+  stalled_observed (run hi) 7 /\
+  tally (run hi) = (run hi, false) /\ last_obs (run (hi ++ [Tally; Tally])) = 0 /\
+  length (applied (run (hi ++ [Tally]))) = 1%nat /\
+  last_obs (run (hi ++ [Tally; Override 1] ++ all (cl 2 8 120 20) ++ [Tally])) = 2 /\
+  last_obs (run (lo ++ [Tally])) = 1 /\ length (applied (run (lo ++ [Tally]))) = 2%nat.
+Proof.
+  split; [|vm_compute; auto 10].
+  eexists. vm_compute. split; [left; reflexivity | split; reflexivity].
+Qed.
+
+(** Stall (2): event 2 carries a remote height below the last observed one.  It has all the votes,
+    every tally reports an error, nothing is written; an override does not lift the height, but the
+    oracle resumes with the next event whose height is not below it. *)
+Example ex_stall_height :
+  let pre := five ++ all (cl 1 7 110 10) ++ [Tally] ++ all (cl 2 8 50 20) in
+  stalled_height (run pre) 8 /\
+  tally (run pre) = (run pre, false) /\ applied (run (pre ++ [Tally; Tally])) = applied (run pre) /\
+  last_obs (run (pre ++ [Tally; Override 2] ++ all (cl 3 9 120 30) ++ [Tally])) = 3.
+Proof.
+  split; [|vm_compute; auto 10].
+  eexists. vm_compute. split; [right; left; reflexivity | repeat split; reflexivity].
+Qed.
+
+(** Genesis round trip inside a history: the cursor, the observed flags and the vote lists survive,
+    the validators' records are rebuilt from their votes (the highest nonce each voted on), the last
+    remote height and the compass id are gone, the oracle goes on. *)
+Example ex_regenesis :
+  let votes c k := map (fun v => Vote v true c) k in
+  let s := run (five ++ all (cl 1 7 110 10) ++ [Tally] ++ votes (cl 2 8 120 20) [0;1;2] ++ [Regenesis]) in
+  last_obs s = 1 /\ vnonce s = [(0,2);(1,2);(2,2);(3,1);(4,1)] /\ last_height s = 0 /\
+  map (fun x => (fst x, a_obs (snd x))) (atts s) = [((1,7),true); ((2,8),false)] /\
+  last_obs (run (five ++ all (cl 1 7 110 10) ++ [Tally] ++ votes (cl 2 8 120 20) [0;1;2] ++ [Regenesis]
+                 ++ votes (cl 2 8 120 20) [3;4;0] ++ [Tally])) = 2.
 Proof. vm_compute. auto 10. Qed.
 
 (** * What an epoch is: only the two reset operations open one, and they say where the cursor starts *)
@@ -577,6 +1293,7 @@ Proof.
   - unfold vote. destruct (vote_ok _ _ _ _); simpl; auto.
   - destruct (tally_facts s I) as ((_ & _ & E1 & E2 & _) & _). auto.
   - unfold prune. destruct (_ <=? _); simpl; auto.
+  - unfold mk_batch. destruct (_ <? _); simpl; auto.
 Qed.
 
 Lemma source_facts :
